@@ -253,6 +253,15 @@ fn run_corpus(job: &Value) {
         xs.extend(["1.2.3", "1..2", ".5.5", "1.", ".", "2pi", "1e5", "2i3", "i2", "π²", "3!!", "-2^2", "2^3!", "6/2(3)", "1 + 2\u{2003}* 3", "⌊2.5⌋⌈2.5⌉", "1<<63", "1<<64", "5%0", "1/0", "avg()", "min()", "max(1,2,)", "sgn(0)", "w(1)", "ilog(100,2)", "gcd(12,18)", "@@", "(@)", "@(2)"].iter().map(|s| s.to_string()));
         for x in xs { let _ = writeln!(w, "{}\t{}", e, x); n += 1; }
     }
+    // a syntax error next to a symbol that only some evaluators know (whichever is met first decides the error that is returned:
+    // that, too, must not depend on which other evaluators are compiled in)
+    for e in ["f64", "i64", "dec", "cpx", "num"] {
+        for pre in ["1)", "2+*", ")", "(", "1,", "2(", "abs(,", "1..2", "#"] {
+            for sym in ["π", "°", "⌊2⌋", "⌈2⌉", "²", "@", "!", "%2", "&1", "<<1", "i", "rad", "e", "pi", "\u{a0}", "é"] {
+                let _ = writeln!(w, "{}\t{}{}", e, pre, sym); let _ = writeln!(w, "{}\t{}{}", e, sym, pre); n += 2;
+            }
+        }
+    }
     // literals of 15 to 19 significant digits with a fraction (where a short-cut conversion and `str::parse` part ways): a feature
     // subset may select another conversion path
     {
